@@ -53,11 +53,11 @@ CLAIMED = {
             "The schema-(in)dependence classification of diagnostic variants and the enumerated guard idioms are the trusted tables; a new variant or idiom fails closed.",
             "call-graph reachability + dominator edge-fact (GUARD) analysis with type-based schema-evidence over rustc MIR", False),
     "C13": ("other",
-            "Sibling agreement between the three places that compare an extension's kind with a definition's kind (18 sites: all must report on the non-matching branch), first-wins shape of the sticky insert helpers, order discipline of the orphan queue, and one FileId per source text.",
+            "Sibling agreement between the three places that compare an extension's kind with a definition's kind (18 sites: all must report on the non-matching branch), first-wins shape of the sticky insert helpers, order discipline of the orphan queue, one FileId per source text, and no per-source history in the builders (no loop-carried local of the per-source method decides a branch of the definitions loop; no builder field is written outside that loop).",
             "Decides necessary structural conditions of order-independence; does not compare diagnostics of sequential and concatenated builds.",
             "sibling (SIB) must-pass-through rule per match edge over rustc MIR; who-calls on the orphan queue", False),
     "C21": ("other",
-            "Every recursive cycle of the compiler's call graph (28 SCCs) is classified: cut by a counting depth guard on every cycle, confined to one definition's syntax tree (bounded by the parser limit), or run only on validated input; cycles that follow names across definitions without a counting guard are reported (two genuine stack overflows found this way, listed as known findings). Diagnostic lists leave the crate only through sorting exits; guard limits are small compile-time constants.",
+            "Every recursive cycle of the compiler's call graph (28 SCCs) is classified: cut by a counting depth guard on every cycle, confined to one definition's syntax tree (bounded by the parser limit), or run only on validated input; cycles that follow names across definitions without a counting guard are reported (two genuine stack overflows found this way, listed as known findings). Diagnostic lists leave the crate only through sorting exits; guard limits are small compile-time constants; the cycle searches (Result<(), CycleError>) whose verdict lets later unguarded recursions terminate leave their loop over siblings early only with an error.",
             "Decides the stack clause relative to guard limits and the sortedness exits; the thorough tier adds the reviewed inventory of the crate's 88 panic-capable sites (69 rows by function and kind, each with a discharge class; a site outside the table is reported), conservative and therefore not in the quick tier; ariadne rendering and drop glue are outside; the allow-list of single-definition cycles carries one reason each.",
             "call-graph SCC classification with guard cut-sets (dominating success edges) + must-pass-through for sort exits over rustc MIR", True),
     "C03": ("other",
@@ -81,7 +81,7 @@ CLAIMED = {
             "Verdict equivalence with a reference parser is not decided (not decidable by this family); only the named tables and shapes are. One known finding: `schema { query: }` is accepted (root_operation_type_definition, missing NamedType), see known_findings.json.",
             "string-pattern table extraction (HIR) + must-pass-through over MIR CFG + sibling table comparison + token-kind abstract interpretation of the grammar functions against graphql.ungram", False),
     "C28": ("other",
-            "The scalar coercion table (built-in names, JSON predicates consulted per name, bounds) and the structural shape of null/list/input-object/variable-map handling, extracted from the type-checked match arms and if-chains.",
+            "The scalar coercion table (built-in names, JSON predicates consulted per name, bounds) and the structural shape of null/list/input-object/variable-map handling, extracted from the type-checked match arms and if-chains; plus the table of graphql_value_to_json, which turns default values into JSON (defaults are not coerced again): faithful per literal kind, Int / Float literals through the parser of their own text and never a narrowing conversion.",
             "Clause-level: numeric edge values and serde_json_bytes' predicates are not decided.",
             "decision-table extraction over HIR match arms and if-chains", False),
     "C15": ("other",
@@ -129,7 +129,7 @@ CLAIMED = {
             "Equality of the re-parsed AST and byte-identical re-serialization are not decided; the CST->AST conversion builds its targets with struct expressions, whose field completeness the compiler enforces.",
             "typed-HIR use analysis per destructured field, MIR variant-region dispatch tables with symbolic call arguments, must-pass-through summaries (fixpoint over the printer's call graph), who-writes", False),
     "C14": ("other",
-            "Handler registry for the type system: each of 47 type-system validation rules of spec section 3 (as split into diagnostic kinds: schema roots, unique names, reserved names, extension kinds, non-empty field/member/value sets, output/input types, implements contracts, input-object cycles, directive definitions and applications, default values) has a diagnostic of the matching kind constructed in a function reachable from the schema build / validation entries and, for kind-specific rules, through the validator of that kind of definition, which must itself be reachable from validate_schema.",
+            "Handler registry for the type system: each of 47 type-system validation rules of spec section 3 (as split into diagnostic kinds: schema roots, unique names, reserved names, extension kinds, non-empty field/member/value sets, output/input types, implements contracts, input-object cycles, directive definitions and applications, default values) has a diagnostic of the matching kind constructed in a function reachable from the schema build / validation entries and, for kind-specific rules, through the validator of that kind of definition, which must itself be reachable from validate_schema. Plus a contradiction rule over the validators (C14.KINDGATE): where a referenced type name is resolved and some way of failing to resolve to the required kind is reported within a loop iteration, every way is (`undefined` and `defined, of another kind` alike), except built-in scalars that validate_schema inserts afterwards.",
             "Presence of a reachable handler per rule is a necessary condition only; that each handler's condition equals the spec's, i.e. agreement of verdicts with graphql-js over all schema documents, is not decided (not decidable by this family). The branch-level implication `invariant broken => diagnostic` for the invariants of the statement is decided under C15.",
             "call-graph reachability from entry points through per-kind validators to diagnostic construction sites (aggregates in rustc MIR) against a rule->variant registry", False),
     "C19": ("other",
@@ -137,7 +137,7 @@ CLAIMED = {
             "Equality of the re-parsed and re-validated document with the original is not decided; printing of the lowered AST is decided under C08/C09 and typing of a re-parsed document under C18.",
             "symbolic (access-path) evaluation of aggregates and straight-line iterator pipelines, variant-region dispatch over rustc MIR", False),
     "C24": ("other",
-            "The introspection resolvers as extracted tables: each of the seven resolvers reports its type name and handles exactly the fields built_in_types.graphql declares for that type; __Type.kind by ExtendedType variant and wrapper, equal to the __TypeKind enum; the per-kind null/non-null table of fields, interfaces, possibleTypes, enumValues, inputFields, specifiedByURL, ofType; the ofType unwrapping table; root operation types read from the same-named schema fields; every deprecable list filtered by includeDeprecated || no @deprecated with default false, isDeprecated / deprecationReason from @deprecated(reason); and every leaf field reading the same-named part of its definition (18 leaves).",
+            "The introspection resolvers as extracted tables: each of the seven resolvers reports its type name and handles exactly the fields built_in_types.graphql declares for that type; __Type.kind by ExtendedType variant and wrapper, equal to the __TypeKind enum; the per-kind null/non-null table of fields, interfaces, possibleTypes, enumValues, inputFields, specifiedByURL, ofType; the ofType unwrapping table; root operation types read from the same-named schema fields; every deprecable list filtered by includeDeprecated || no @deprecated with default false, isDeprecated / deprecationReason from @deprecated(reason); every leaf field reading the same-named part of its definition (18 leaves); and the collection each data-bearing (field, kind) pair reads (possibleTypes of an interface = implementing objects only).",
             "Equality of introspection response data with the reference implementation on all valid schemas is not decided; the tables are necessary conditions of it. The executor that drives the resolvers is decided under C26.",
             "string-match decision-table extraction over typed HIR with local-identity keys, compared with the crate's own introspection schema file and the spec's per-kind table; MIR path tables", False),
 }
